@@ -100,7 +100,7 @@ func (g *bridgeGen) mine() *btcBlock {
 	var cb []byte
 	var cbid []byte
 	single := false
-	if g.cbDep == nil && (g.r.Intn(6) == 0 || g.mode == "deep") {
+	if g.cbDep == nil && (g.r.Intn(6) == 0 || g.mode == "deep" || g.mode == "spv") {
 		d := g.newDepositTx("none")
 		if d != nil {
 			g.cbDep = d
@@ -951,6 +951,10 @@ func (g *bridgeGen) plan(mode string) (*BlockPlan, error) {
 					flaw = "posAlias"
 				} else if mode == "addr" && rare(3) {
 					flaw = []string{"otherEvm", "otherKey", "version", "otherOut"}[r.Intn(4)]
+				} else if mode == "spv" { // only what the inclusion proof is about varies: position, path, header
+					if rare(3) {
+						flaw = []string{"pos", "posAlias", "proof", "proofTrunc", "proofRagged", "header"}[r.Intn(6)]
+					}
 				} else if rare(4) && perm == nil {
 					flaw = []string{"otherEvm", "otherKey", "version", "version2", "outIdx", "otherOut", "pos", "posAlias", "proof", "proofTrunc", "proofRagged", "header", "noHeader", "evmLen", "txTrunc"}[r.Intn(15)]
 				}
@@ -1341,8 +1345,12 @@ func (g *bridgeGen) finalizeMsg(vc *voteCtx, st *project.BridgeState) (sdk.Msg, 
 	m := &bitcointypes.MsgFinalizeWithdrawal{Proposer: s.member(vc.Proposer).Bech, Pid: uint64(w.pid), Txid: w.txid, BlockNumber: w.blk,
 		TxIndex: uint32(w.pos), IntermediateProof: flat(blk.tree.Path(w.pos)), BlockHeader: blk.header}
 	f := Ev{"wf": true, "pid": w.pid, "txid": project.H6(w.txid), "blk": int64(w.blk), "hdr": project.H6(blk.hash), "spvOk": true}
-	if rare(5) && !large {
-		switch r.Intn(6) {
+	if (rare(5) || (g.mode == "spv" && rare(3))) && !large {
+		pick := r.Intn(6)
+		if g.mode == "spv" { // proof-related only: ragged path, flipped bit, another header, position 0
+			pick = []int{5, 1, 2, 3}[r.Intn(4)]
+		}
+		switch pick {
 		case 5: // ragged path
 			stray := make([]byte, 1+r.Intn(31))
 			r.Read(stray)
